@@ -485,6 +485,9 @@ class TruncateMixin(MinimalHandler):
         which should honor the .truncate_verify_reject policy.
         """
         assert cls.truncate_size is not None, "truncate_size must be set by subclass"
+        if isinstance(secret, str):
+            # truncate_size is a limit in bytes, not characters
+            secret = secret.encode("utf-8")
         if cls.truncate_error and len(secret) > cls.truncate_size:
             raise exc.PasswordTruncateError(cls)
 
